@@ -50,6 +50,13 @@ def J.get (kvs : List (Str × J)) (k : Str) : Option J := (kvs.find? (·.1 = k))
 def keysAre (kvs : List (Str × J)) (names : List Str) : Bool :=
   kvs.length = names.length && names.all (fun n => kvs.any (·.1 = n))
 
+/-- `DictDecoder.is_generic`: the keys are field names of the generic class and the fields that
+do not default to `None` are all there -/
+def isGeneric (kvs : List (Str × J)) (required all : List Str) : Bool :=
+  required.all (fun n => kvs.any (·.1 = n)) && kvs.all (fun kv => all.contains kv.1)
+
+def derivedRequired : List Str := ["qname".toList, "value".toList]
+def anyRequired : List Str := ["children".toList, "attributes".toList]
 def derivedKeys : List Str := ["qname".toList, "type".toList, "value".toList]
 def anyKeys : List Str := ["qname".toList, "text".toList, "tail".toList, "children".toList, "attributes".toList]
 
@@ -119,6 +126,16 @@ def dictOf : J → Except Err Val
 def bindTextJ (e : BEnv) (cfg : ParserConfig) (var : XmlVar) (value : J) : Except Err Val := do
   if var.isElements then throw (.unsupported "compound field")
   if var.anyType || var.isWildcard then throw (.unsupported "anyType field")
+  -- `if not var.tokens and type(value) in var.types: return value`
+  let own : Option (TypeRef × Val) := match value with
+    | .str s => some (.prim .str, .prim (.str s))
+    | .int i => some (.prim .int, .prim (.int i))
+    | .bool b => some (.prim .bool, .prim (.bool b))
+    | .float t => some (.other "float".toList, .prim (.str t))
+    | _ => none
+  match own with
+  | some (t, v) => if !var.tokens && var.types.contains t then return v
+  | none => pure ()
   -- `try: value = converter.serialize(value) except TypeError: raise ParserError`
   let s ← match serializeJ value with
     | .error (.leaked "TypeError") => .error (.parser "Failed to bind value: null item in a list of tokens")
@@ -134,7 +151,8 @@ def subclassesOf (Γ : Ctx) (c : ClassId) : List ClassId :=
 def localNamesMatch (Γ : Ctx) (kvs : List (Str × J)) (c : ClassId) : Bool :=
   match (Γ.find c).bind (·.metaFor none) with
   | none => false
-  | some m => kvs.all (fun kv => (allVars m).any (·.localName = kv.1))
+  -- the local names, and the wrapper names of the wrapped vars
+  | some m => kvs.all (fun kv => (allVars m).any (fun v => v.localName = kv.1 || wrapperName v = some kv.1))
 
 /-- `XmlMeta.element_types` restricted to model classes -/
 def elementClasses (m : XmlMeta) : List ClassId :=
@@ -210,8 +228,8 @@ def bindValue (e : BEnv) (Γ : Ctx) (cfg : ParserConfig) : Nat → XmlMeta → X
         let vs ← xs.mapM (fun x => bindValue e Γ cfg fuel m var x true)
         return .list vs
       | .obj kvs, _ =>
-        if keysAre kvs anyKeys then .error (.unsupported "generic AnyElement")
-        else if keysAre kvs derivedKeys then
+        if isGeneric kvs anyRequired anyKeys then .error (.unsupported "generic AnyElement")
+        else if isGeneric kvs derivedRequired derivedKeys then
           -- bind_derived_value
           let xsiType := (J.get kvs "type".toList).getD .null
           let params := (J.get kvs "value".toList).getD .null
@@ -237,15 +255,28 @@ def bindBest (e : BEnv) (Γ : Ctx) (cfg : ParserConfig) : Nat → List (Str × J
   | 0, _, _ => .error (.unsupported "fuel")
   | fuel + 1, kvs, classes =>
     let strict := { cfg with failOnConverterWarnings := true }
-    let results := (classes.filter (localNamesMatch Γ kvs)).map fun c =>
-      (c, bindDataclass e Γ strict fuel (.obj kvs) c)
+    -- with `fail_on_unknown_properties` off the keys none of the classes declares do not count
+    let keys := if cfg.failOnUnknownProperties then kvs
+      else kvs.filter fun kv => classes.any (localNamesMatch Γ [kv])
+    let matching := classes.filter (localNamesMatch Γ keys)
+    let results := matching.map fun c => (c, bindDataclass e Γ strict fuel (.obj kvs) c)
     -- a candidate that leaves the modelled fragment makes the whole outcome unknown
     match results.find? (fun r => match r.2 with | .error (.unsupported _) => true | _ => false) with
     | some _ => .error (.unsupported "candidate outside the fragment")
     | none =>
       match results.find? (fun r => match r.2 with | .ok _ => true | .error _ => false) with
       | some (c, _) => .ok (.obj c [])
-      | none => .error (.parser "Failed to bind object")
+      | none =>
+        if cfg.failOnConverterWarnings then .error (.parser "Failed to bind object")
+        else
+          -- no class converts every value: the classes are ranked again with the caller's configuration
+          let lenient := matching.map fun c => (c, bindDataclass e Γ cfg fuel (.obj kvs) c)
+          match lenient.find? (fun r => match r.2 with | .error (.unsupported _) => true | _ => false) with
+          | some _ => .error (.unsupported "candidate outside the fragment")
+          | none =>
+            match lenient.find? (fun r => match r.2 with | .ok _ => true | .error _ => false) with
+            | some (c, _) => .ok (.obj c [])
+            | none => .error (.parser "Failed to bind object")
 
 end
 
